@@ -258,9 +258,19 @@ func c12SkipLoops(c *Ctx, p *core.Prog) {
 	}
 	nLoops, nSkip := 0, 0
 	const (
-		stE = 1 // the current token has been examined by a positive test since the cursor last moved
-		stU = 2 // it has not
+		stE     = 1 // the current token has been examined by a positive test since the cursor last moved
+		stU     = 2 // it has not
+		stNoEOF = 4 // on some path it has not been compared with EOF since the cursor last moved
+		stNoSem = 8 // … nor with the semicolon
 	)
+	isCursorLoad := func(v ssa.Value) bool {
+		u, ok := v.(*ssa.UnOp)
+		if !ok || u.Op != token.MUL {
+			return false
+		}
+		fa, ok := u.X.(*ssa.FieldAddr)
+		return ok && core.FieldName(fa.X.Type(), fa.Field) == "currentPos"
+	}
 	// functions from which advance() is reachable: calling one may move the cursor
 	mayAdvance := map[*ssa.Function]bool{}
 	if adv := p.Method("pkg/sql/parser", "Parser", "advance"); adv != nil {
@@ -295,6 +305,7 @@ func c12SkipLoops(c *Ctx, p *core.Prog) {
 		// forward may-analysis over the whole function. On entry the token counts as examined: callers dispatch on it.
 		inState := map[*ssa.BasicBlock]int{fn.Blocks[0]: stE}
 		atAdvance := map[ssa.Instruction]int{}
+		atLoad := map[ssa.Value]int{} // state at each load of the cursor (a snapshot the code may compare with later)
 		for changed := true; changed; {
 			changed = false
 			for _, b := range fn.Blocks {
@@ -307,19 +318,54 @@ func c12SkipLoops(c *Ctx, p *core.Prog) {
 						atAdvance[in] |= st
 					}
 					if consumes(in) {
-						st = stU
+						st = stU | stNoEOF | stNoSem
+					}
+					if v, ok := in.(ssa.Value); ok && isCursorLoad(v) {
+						if atLoad[v]|st != atLoad[v] {
+							atLoad[v] |= st
+							changed = true
+						}
 					}
 				}
 				var t tokTest
+				snapSucc, snapState := -1, 0
 				if len(b.Instrs) > 0 {
 					if iff, ok := b.Instrs[len(b.Instrs)-1].(*ssa.If); ok {
 						t = classify(iff.Cond)
+						// progress guard `p.currentPos == saved`: on the equal side the cursor is where it was when
+						// saved was loaded, so what was known about the token then is known again
+						if bo, ok := iff.Cond.(*ssa.BinOp); ok && (bo.Op == token.EQL || bo.Op == token.NEQ) && isCursorLoad(bo.X) && isCursorLoad(bo.Y) && bo.X != bo.Y {
+							old := bo.Y
+							if bo.X.(*ssa.UnOp).Block() != b || bo.Y.(*ssa.UnOp).Block() == b && bo.Y.Pos() > bo.X.Pos() {
+								old = bo.X
+							}
+							if atLoad[old] != 0 {
+								snapState = atLoad[old]
+								snapSucc = 0
+								if bo.Op == token.NEQ {
+									snapSucc = 1
+								}
+							}
+						}
 					}
 				}
 				for k, sc := range b.Succs {
 					out := st
-					if t.isTest && k == t.posSucc {
-						out = stE
+					if t.isTest {
+						for _, kk := range t.consts {
+							if kk == eof {
+								out &^= stNoEOF
+							}
+							if kk == semi {
+								out &^= stNoSem
+							}
+						}
+						if k == t.posSucc {
+							out = stE
+						}
+					}
+					if k == snapSucc {
+						out = snapState
 					}
 					if inState[sc]|out != inState[sc] {
 						inState[sc] |= out
@@ -332,13 +378,16 @@ func c12SkipLoops(c *Ctx, p *core.Prog) {
 		for _, scc := range sccs {
 			in := blockSet(scc)
 			hasAdv := false
-			var site ssa.Instruction
+			var site, blind ssa.Instruction
 			for _, b := range scc {
 				for _, ins := range b.Instrs {
 					if isAdvance(ins) {
 						hasAdv = true
 						if atAdvance[ins]&stU != 0 && (site == nil || ins.Pos() < site.Pos()) {
 							site = ins
+						}
+						if atAdvance[ins]&stU != 0 && atAdvance[ins]&(stNoEOF|stNoSem) != 0 && (blind == nil || ins.Pos() < blind.Pos()) {
+							blind = ins
 						}
 					}
 				}
@@ -369,7 +418,19 @@ func c12SkipLoops(c *Ctx, p *core.Prog) {
 			if !tested[semi] {
 				miss = append(miss, "TokenTypeSemicolon")
 			}
-			if len(miss) == 0 {
+			if len(miss) == 0 && blind != nil {
+				what := ""
+				if atAdvance[blind]&stNoEOF != 0 {
+					what = "EOF"
+				}
+				if atAdvance[blind]&stNoSem != 0 {
+					if what != "" {
+						what += " or "
+					}
+					what += "the semicolon"
+				}
+				r.Violate("skip-loop-terminator", key, p.Pos(blind.Pos()), "this advance() consumes a token that, on some path, has not been compared with "+what+" since the cursor last moved (the loop tests for them elsewhere, but not between the move and this advance): recovery can swallow a statement's `;` and with it the statement that follows")
+			} else if len(miss) == 0 {
 				r.OK("skip-loop-terminator", key, p.Pos(site.Pos()), "the skip loop tests for end of input and semicolon")
 			} else {
 				r.Violate("skip-loop-terminator", key, p.Pos(site.Pos()), "this loop consumes any token (advance() on a token that no positive test has examined since the cursor last moved) and never tests for "+strings.Join(miss, " / ")+": a statement cut off here swallows the `;` and the statements after it, which recovery then cannot return")
